@@ -51,7 +51,7 @@ partial def jPyStmt (j : Json) : Except String PyStmt := do
   | [.str "ret", e] => pure (.ret (← jPyExpr e))
   | [.str "retnone"] => pure .retNone
   | [.str "skip"] => pure .skip
-  | [.str "opaque"] => pure .opaque
+  | [.str "opaque"] => pure .unhandled
   | _ => .error s!"bad py stmt {j.compress}"
 
 def jGVal (j : Json) : Except String GVal := do
